@@ -586,8 +586,15 @@ func pqHasEmptyPrefixPersist(s pqSc) bool {
 	return false
 }
 
-func TestVerif_C19_ProvideQueue(t *testing.T) {
-	verifsim.RunCheck(t, verifsim.Check[pqSc]{
+func TestVerif_C19_ProvideQueue(t *testing.T) { verifsim.RunCheck(t, c19ProvideQueueCheck()) }
+
+// the same generator and oracle driven by Go's coverage-guided fuzzer (thorough tier)
+func FuzzVerif_C19_ProvideQueue(f *testing.F) {
+	verifsim.RunFuzz(f, c19ProvideQueueCheck(), "TestVerif_C19_ProvideQueue")
+}
+
+func c19ProvideQueueCheck() verifsim.Check[pqSc] {
+	return verifsim.Check[pqSc]{
 		Property: "C19", Part: "provide-queue",
 		Rule: "rapid state machine: 1-30 operations (enqueue under prefixes of 0-6 biased bits incl. the empty prefix, with 0-4 pooled keys matching the prefix; " +
 			"dequeue; dequeue-matching; remove queued or foreign keys; clear; persist(batch 1-4, optionally over a stale earlier persist)+drain into a fresh or " +
@@ -601,7 +608,7 @@ func TestVerif_C19_ProvideQueue(t *testing.T) {
 			}
 			return ""
 		},
-	})
+	}
 }
 
 // ---------- reprovide queue ----------
@@ -697,8 +704,15 @@ func runRQ(s rqSc) (res verifsim.Result) {
 	return
 }
 
-func TestVerif_C19_ReprovideQueue(t *testing.T) {
-	verifsim.RunCheck(t, verifsim.Check[rqSc]{
+func TestVerif_C19_ReprovideQueue(t *testing.T) { verifsim.RunCheck(t, c19ReprovideQueueCheck()) }
+
+// the same generator and oracle driven by Go's coverage-guided fuzzer (thorough tier)
+func FuzzVerif_C19_ReprovideQueue(f *testing.F) {
+	verifsim.RunFuzz(f, c19ReprovideQueueCheck(), "TestVerif_C19_ReprovideQueue")
+}
+
+func c19ReprovideQueueCheck() verifsim.Check[rqSc] {
+	return verifsim.Check[rqSc]{
 		Property: "C19", Part: "reprovide-queue",
 		Rule: "rapid state machine: 1-40 operations (enqueue 1-3 prefixes of 0-6 biased bits, dequeue, remove prefix, clear) against a list model with the documented " +
 			"absorption rule; order, size, emptiness, non-overlap and the internal prefix trie compared after every step; non-trivial = some absorption and >=3 operations",
@@ -722,5 +736,5 @@ func TestVerif_C19_ReprovideQueue(t *testing.T) {
 			}), 1, 40).Draw(t, "ops")}
 		},
 		Run: func(t *testing.T, s rqSc) verifsim.Result { return runRQ(s) },
-	})
+	}
 }
